@@ -13,6 +13,7 @@ import (
 	"net/netip"
 	"time"
 
+	"github.com/gaissmai/bart"
 	"github.com/rcrowley/go-metrics"
 	"github.com/slackhq/nebula/cert"
 	"github.com/slackhq/nebula/config"
@@ -521,7 +522,14 @@ func specFirewallOK(f *Firewall) bool {
 //@   ensures[expired] implies(old(f.Conntrack.Conns[p]) != nil && f.Conntrack.Conns[p] != nil, !old(f.Conntrack.Conns[p].Expires).Before(old(clock())))
 //@   assigns mapof(f.Conntrack.Conns)
 
+// (Callers — Firewall.Drop, C17 — see only a frame abstraction of inConns: it
+// touches conntrack state only: the table, its entries' deadline and version,
+// the per-batch cache, the timer wheel and the conntrack lock.)
 //@ func (*Firewall).inConns
+//@   trusted frame abstraction for callers; the function is verified against its full contract below (`impl`, C18 and C19)
+//@   assigns mapof(f.Conntrack.Conns), mapof(localCache)
+
+//@ func (*Firewall).inConns impl
 //@   props C18 C19
 //@   requires f != nil && h != nil && h.ConnectionState != nil && specFirewallOK(f)
 //@   requires[noNilEntries] forall(func(k firewall.Packet) bool { return implies(has(f.Conntrack.Conns, k), f.Conntrack.Conns[k] != nil) })
@@ -906,6 +914,7 @@ func specNeedsRehandshake(cm *connectionManager, h *HostInfo) bool {
 //@   assigns nothing
 //@ func github.com/gaissmai/bart.(*liteTable).Contains
 //@   trusted longest-prefix lookup; reads only
+//@   effect routable if result
 //@   assigns nothing
 //@ func (recvErrorConfig).ShouldRecvError
 //@   trusted configuration predicate on the address; reads only
@@ -1133,6 +1142,52 @@ func specTunnelOK(h *HostInfo) bool {
 //@   ensures[others] implies(result1 != nil || k != result0, has(hm.Relays, k) == old(has(hm.Relays, k)) && hm.Relays[k] == old(hm.Relays[k]))
 //@   ensures[err]    implies(result1 != nil, result0 == 0)
 //@   loop 1 invariant has(hm.Relays, k) == old(has(hm.Relays, k)) && hm.Relays[k] == old(hm.Relays[k]) && same(hm.Relays, old(hm.Relays))
+
+// =====================================================================
+// C17 — overlay source and destination addresses are authentic
+// =====================================================================
+//
+// Firewall.Drop lets a packet through (nil) only if its remote address is the
+// peer's certified address (single-address certificates) or is found in the
+// peer's certified network table as one of the peer's own addresses inside our
+// networks or inside one of its unsafe networks; and only if its local address
+// is in the node's routable networks (own addresses and unsafe networks) —
+// before rules or tracked flows are even looked at. The tables themselves are
+// built from the certificate by HostInfo.buildNetworks / NewFirewall (not
+// covered); lookups are deterministic functions of (table, address).
+
+//@ func specNetType
+//@   opaque
+func specNetType(t *bart.Table[NetworkType], ip netip.Addr) NetworkType { return 0 }
+
+//@ func specNetFound
+//@   opaque
+func specNetFound(t *bart.Table[NetworkType], ip netip.Addr) bool { return false }
+
+//@ func github.com/gaissmai/bart.(*Table).Lookup
+//@   trusted longest-prefix lookup in an immutable table: a deterministic function of table and address; reads only
+//@   ensures val == specNetType(t, ip) && ok == specNetFound(t, ip)
+//@   assigns nothing
+
+//@ func (*Firewall).metrics
+//@   inline
+//@ func github.com/rcrowley/go-metrics.(Counter).Inc
+//@   trusted metrics counter
+//@   assigns nothing
+//@ func (*Firewall).addConn
+//@   trusted records the flow in the conntrack table (C18)
+//@   assigns nothing
+
+//@ func (*Firewall).Drop
+//@   props C17
+//@   ghost routable int = 0
+//@   requires f != nil && h != nil && len(h.vpnAddrs) >= 1 && f.routableNetworks != nil && specFirewallOK(f) && h.ConnectionState != nil
+//@   requires[noNilEntries] forall(func(k firewall.Packet) bool { return implies(has(f.Conntrack.Conns, k), f.Conntrack.Conns[k] != nil) })
+//@   requires[metrics] f.incomingMetrics.droppedLocalAddr != nil && f.incomingMetrics.droppedRemoteAddr != nil && f.incomingMetrics.droppedNoRule != nil && f.outgoingMetrics.droppedLocalAddr != nil && f.outgoingMetrics.droppedRemoteAddr != nil && f.outgoingMetrics.droppedNoRule != nil
+//@   callrequires Contains arg1 == fp.LocalAddr
+//@   callrequires (*Table).Lookup arg0 == h.networks && arg1 == fp.RemoteAddr
+//@   ensures[remote] implies(result == nil, ite(h.networks == nil, fp.RemoteAddr == h.vpnAddrs[0], specNetFound(h.networks, fp.RemoteAddr) && (specNetType(h.networks, fp.RemoteAddr) == NetworkTypeVPN || specNetType(h.networks, fp.RemoteAddr) == NetworkTypeUnsafe)))
+//@   ensures[local]  implies(result == nil, routable >= 1)
 
 // =====================================================================
 // C42 — certificate reload never changes a node's identity
